@@ -113,8 +113,7 @@ Proof. exact Proofs.gap_of_number_ws. Qed.
 
 (* Object.MarshalJSON (stringify without replacer and gap, undefined written as null) agrees with JSON.stringify
    wherever JSON.stringify yields a text or throws *)
-Theorem marshal_agrees : forall sb v, stringify_g sb v RNone VUndef <> SUndef ->
-  marshal_g sb v = stringify_g sb v RNone VUndef.
+Theorem marshal_agrees : forall v, stringify v RNone VUndef <> SUndef -> marshal v = stringify v RNone VUndef.
 Proof. exact Proofs.marshal_agrees. Qed.
 
 Example stringify_nonvacuous :
@@ -126,10 +125,14 @@ Example stringify_nonvacuous :
            10; 32; 32; 91; 93; 10; 32; 93; 44; 10; 32; 34; 98; 34; 58; 32; 116; 114; 117; 101; 10; 125].
 Proof. vm_compute. repeat split; reflexivity. Qed.
 
-(* Recorded findings, on the model side.  F-C19-4: reading a Symbol wrapper object as undefined (what goja does)
-   differs from the specification.  F13: the grammar derives 1e400, so JSON.parse must accept it (goja throws). *)
-Theorem symbol_wrapper_refuted : exists v, stringify_g true v RNone VUndef <> stringify v RNone VUndef.
-Proof. exact Proofs.symbol_wrapper_refuted. Qed.
+(* Formerly recorded findings (all repaired in /repo, see known/C19.json "fixed"); the model never had an
+   implementation-shaped variant left: what is compared with goja is the specification.  F-C19-4: a Symbol wrapper
+   object serialises as an ordinary object.  F13: the grammar derives 1e400, so JSON.parse accepts it (+Infinity). *)
+Theorem symbol_wrapper_is_object :
+  stringify VBoxSym RNone VUndef = SText [123; 125] /\
+  stringify (VArr [VBoxSym]) RNone VUndef = SText [91; 123; 125; 93] /\
+  marshal VBoxSym = SText [123; 125].
+Proof. exact Proofs.symbol_wrapper_is_object. Qed.
 
 Example parse_accepts_1e400 :
   parse [49; 101; 52; 48; 48] = Some (JNum false [49] [] (Some (false, [52; 48; 48]))) /\
@@ -155,4 +158,4 @@ Print Assumptions stringify_json_shaped.
 Print Assumptions stringify_parse_roundtrip.
 Print Assumptions gap_of_number_ws.
 Print Assumptions marshal_agrees.
-Print Assumptions symbol_wrapper_refuted.
+Print Assumptions symbol_wrapper_is_object.
